@@ -276,7 +276,7 @@ func init() {
 				if panicAt >= nReg {
 					panicAt = -1
 				}
-				fin := c10Scope(l, t, "prop", nReg, -1, nReg > 0 && panicAt == 0)
+				fin := c10Scope(l, t, "prop", nReg, panicAt, nReg > 0 && panicAt != 0)
 				_ = custom.Draw(t, "cv")
 				end := rapid.IntRange(0, 100).Draw(t, "end")
 				fin()
@@ -323,7 +323,7 @@ func init() {
 		// 5 cleanup-time errorf + skip, 6 pass … most cases pass or skip, rarely one signals
 		for i := 0; i < 40*scale; i++ {
 			hi := int(r.pick(6, 12, 30, 60))
-			src := fmt.Sprintf("((draw b (i 0 %d)) (draw pad (slice (bool) 0 3)) (if (eq b 4) (cleanup (error 4))) (if (eq b 5) (cleanup (error 5))) (if (eq b 1) (error 1)) (if (eq b 3) (error 3)) (if (eq b 2) (skip)) (if (eq b 3) (skip)) (if (eq b 5) (skip)))", hi)
+			src := fmt.Sprintf("((ctxlive 5) (draw b (i 0 %d)) (draw pad (slice (bool) 0 3)) (if (eq b 0) (cleanup (ctx))) (if (eq b 6) (cleanup (cleanup (ctx)))) (if (eq b 4) (cleanup (error 4))) (if (eq b 5) (cleanup (error 5))) (if (eq b 1) (error 1)) (if (eq b 3) (error 3)) (if (eq b 2) (skip)) (if (eq b 3) (skip)) (if (eq b 5) (skip)))", hi)
 			prog := mustSX(src)
 			fl := baseFlags()
 			fl.Checks = int(r.pick(10, 100))
